@@ -1,5 +1,5 @@
 (* C17 - A response fits the transport buffer completely or becomes a one-byte error. *)
-From Ctap Require Import Base Schema Wire Typed Procs Inst Tables ProcTables Finite FramingP.
+From Ctap Require Import Base Schema Wire Typed Procs Inst Tables ProcTables Finite FramingP ObRespTables ObResponseSide.
 Local Open Scope string_scope.
 Local Open Scope Z_scope.
 
